@@ -4,7 +4,8 @@ Two parts:
  * theorems (coq/Props/C14.v, lemmas in coq/Lemmas/NoEscape*.v): for every modelled decoder / parser /
    deserialiser / validator / constructor the exception-faithful model never leaves the family
    (`*_no_escape`), for ALL inputs; where the faithful model does leave it the full statement is refuted with
-   a witness and the guard under which it holds is a `_partial` theorem (Khovratovich-Law child key);
+   a witness and the guard under which it holds is a `_partial` theorem (none left: the Khovratovich-Law child key,
+   refuted while /repo let OverflowError escape, is a full statement since fix 71d2424);
  * this module: the obligation list = every public entry point that takes str/bytes (ENTRIES, built from the
    package and the coin tables), each driven with generic junk and structure-aware mutations
    of valid encodings ("<entry>" cases: exception family + wall clock).  Every entry point has a model and is in
@@ -22,7 +23,7 @@ from bip_utils.bip.bip38.bip38_ec import Bip38EcKeysGenerator
 from framework import Func, IN_FAMILY, exn_name
 
 MANIFEST = {
-    "text": "Coq theorems (116 theorems + 8 examples, one or more per modelled entry point: text/wire codecs incl. Bech32/SegWit/CashAddr, "
+    "text": "Coq theorems (113 theorems + 7 examples, one or more per modelled entry point: text/wire codecs incl. Bech32/SegWit/CashAddr, "
             "path parsers, BIP-39 and the other mnemonic decoders/validators/generators/containers, seed generators, extended-key "
             "and SLIP-32 deserialisers, WIF, BIP-38, EC key byte constructors, master keys and FromSeedAndPath of the SLIP-0010 "
             "and Khovratovich-Law/Icarus/Byron-legacy classes, Bip44-family constructors, Monero/Substrate/Electrum key and wallet "
@@ -33,8 +34,8 @@ MANIFEST = {
     "note": "Every census entry point now has a model and a theorem; what remains outside proof: the models are hand "
             "transcriptions tied to the code by the differential run; cbor2 / sr25519 / libsodium behaviour is observed (oracles), "
             "not proved; 'promptly' is a wall-clock test; the termination of the master-key re-hash loops is not a theorem "
-            "(in_family_or_fuel); the Khovratovich-Law child key is refuted for out-of-range parents (finding C14-KHOLAW-OVERFLOW) "
-            "and proved under the bound every seed-derived key satisfies, and unconditionally for the derivator the property demands.",
+            "(in_family_or_fuel); the Khovratovich-Law child key, refuted for out-of-range parents until /repo was repaired (finding "
+            "C14-KHOLAW-OVERFLOW, fix 71d2424), is proved unconditionally for the repaired derivator.",
     "technique": "Coq proof of no-escape for modelled entry points (error-site analysis: IndexError/OverflowError/TypeError sites "
                  "shown unreachable after the preceding length checks; fuel bounded by input length) + entry-point census + mutation "
                  "fuzzing against the exception family (payload-level mutations re-encoded under valid Base58Check / Bech32 / CashAddr / "
@@ -210,7 +211,7 @@ def build():
         E(cname + ".FromPublicKey", "bytes", (lambda c_: lambda b: c_.FromPublicKey(b))(c),
           [o.PublicKey().RawCompressed().ToBytes(), o.PublicKey().RawUncompressed().ToBytes(), bytes(33), b"\x02" + b"\xff" * 32])
     # a constructor followed by ONE derivation step: the key material accepted by FromPrivateKey / FromExtendedKey is the
-    # input, the path is fixed (theorem kholaw_child_key_refuted: a Khovratovich-Law parent with kL >= 2^256 - 2^227)
+    # input, the path is fixed (example kholaw_child_key_out_of_range_ex: a Khovratovich-Law parent with kL >= 2^256 - 2^227, Bip32KeyError since fix 71d2424)
     kh = Bip32KholawEd25519.FromSeed(SEED)
     kh_bad = Bip32KholawEd25519.FromPrivateKey(b"\xff" * 64)
     E("Bip32KholawEd25519.FromPrivateKey.ChildKey", "bytes", lambda b: Bip32KholawEd25519.FromPrivateKey(b).ChildKey(0),
@@ -1421,153 +1422,6 @@ def wif_net_ver_len_replay():
     return "WifDecoder.Decode(%r, b'') returned" % WIF_VALID
 
 
-# ---- AdaByronAddrDecoder.DecodeAddr: the two defects reached by the CBOR-level mutation stream
-BYRON_FNS = ("AdaByronAddrDecoder.DecodeAddr", "AdaByronAddrDecoder.DecodeAddr[legacy]",
-             "model:AdaByronAddrDecoder.DecodeAddr", "model:AdaByronAddrDecoder.DecodeAddr[legacy]")
-
-
-def _byron_classify(addr):
-    """Which defect of the Byron decoder (if any) an address string reaches, following the library's own order of checks:
-    'attrs' (a field that must be a byte string is something else), 'cbor2' (cbor2.loads itself raises something that
-    is neither CBORDecodeError nor ValueError), None (rejected by a check that exists, or accepted)."""
-    import binascii
-    import cbor2
-
-    def loads(b):
-        try:
-            return "ok", cbor2.loads(b)
-        except (cbor2.CBORDecodeError, ValueError, RecursionError):
-            return "rejected", None
-        except Exception:  # noqa
-            return "cbor2", None
-    try:
-        raw = Base58Decoder.Decode(addr)
-    except Exception:  # noqa
-        return None
-    k, o = loads(raw)
-    if k != "ok":
-        return "cbor2" if k == "cbor2" else None
-    if not (isinstance(o, (list, tuple)) and len(o) == 2 and isinstance(o[0], cbor2.CBORTag) and isinstance(o[1], int)):
-        return None
-    if o[0].tag != 24:
-        return None
-    val = o[0].value
-    if not isinstance(val, bytes):
-        return None if isinstance(val, str) else "attrs"      # Crc32 of a str is computed on its UTF-8 encoding
-    if binascii.crc32(val) != o[1]:
-        return None
-    k, p = loads(val)
-    if k != "ok":
-        return "cbor2" if k == "cbor2" else None
-    if not (isinstance(p, (list, tuple)) and len(p) == 3 and isinstance(p[0], bytes) and isinstance(p[1], dict)
-            and isinstance(p[2], int)) or len(p[0]) != 28:
-        return None
-    attrs = p[1]
-    if len(attrs) > 2 or (len(attrs) != 0 and 1 not in attrs and 2 not in attrs):
-        return None
-    v1 = None
-    for key in (1, 2):
-        if key in attrs:
-            if not isinstance(attrs[key], bytes):
-                return "attrs"
-            k, v = loads(attrs[key])
-            if k != "ok":
-                return "cbor2" if k == "cbor2" else None
-            if key == 1:
-                v1 = v
-    if p[2] != 0:               # AdaByronAddrTypes(type) == PUBLIC_KEY is checked before the concatenation
-        return None
-    return "attrs" if (v1 is not None and not isinstance(v1, bytes)) else None
-
-
-def _observed_escape(record):
-    if record.get("kind") == "direct":
-        return record.get("what", "").startswith("escapes with")
-    imp = record.get("impl", {})
-    return "err" in imp and imp["err"] not in IN_FAMILY
-
-
-def byron_attrs_types(fn, args, record):
-    """C14-BYRON-ATTRS: well-formed CBOR with a valid CRC whose tagged value / attribute value / attribute-1 content is
-    not a byte string -> TypeError."""
-    return fn in BYRON_FNS and _observed_escape(record) and "TypeError" in str(record) and _byron_classify(args[0]) == "attrs"
-
-
-BYRON_ATTRS_INPUTS = [
-    ("attribute value 5", lambda: byron_addr([bytes(28), {1: 5}, 0])),
-    ("attribute 1 = CBOR text string", lambda: byron_addr([bytes(28), {1: cb("xx")}, 0])),
-    ("tag-24 value 7", lambda: byron_addr(b"", outer=[CTag(24, 7), 0])),
-]
-
-
-def byron_attrs_types_replay():
-    bad = []
-    for what, mk in BYRON_ATTRS_INPUTS:
-        a = mk()
-        try:
-            AdaByronAddrDecoder.DecodeAddr(a)
-        except ValueError:
-            continue
-        except TypeError as ex:
-            bad.append("%s: DecodeAddr(%r) raises TypeError (%s)" % (what, a, str(ex)[:50]))
-            continue
-        bad.append("%s: DecodeAddr(%r) returned" % (what, a))
-    return "; ".join(bad) if bad else None
-
-
-def byron_cbor2_exc(fn, args, record):
-    """C14-BYRON-CBOR2-EXC: cbor2.loads raises TypeError / OverflowError / a decimal exception (ill-typed decimal
-    fraction or bigfloat tag) and the decoder only translates CBORDecodeError."""
-    return fn in BYRON_FNS and _observed_escape(record) and _byron_classify(args[0]) == "cbor2"
-
-
-BYRON_CBOR2_INPUTS = ["62LEus", "4i5esh9TA7i2JcbyZ", "PAsvD1i"]   # Base58 of c48200f6, c4821bffffffffffffffff00, c482006161
-
-
-def byron_cbor2_exc_replay():
-    bad = []
-    for a in BYRON_CBOR2_INPUTS:
-        try:
-            AdaByronAddrDecoder.DecodeAddr(a)
-        except ValueError:
-            continue
-        except Exception as ex:  # noqa
-            bad.append("DecodeAddr(%r) raises %s" % (a, type(ex).__name__))
-            continue
-        bad.append("DecodeAddr(%r) returned" % a)
-    return "; ".join(bad) if bad else None
-
-
-# ---- Khovratovich-Law child of an out-of-range parent key
-KH_CHAIN_FNS = ("Bip32KholawEd25519.FromPrivateKey.ChildKey", "Bip32KholawEd25519.FromExtendedKey.DerivePath")
-
-
-def _kh_left_part(fn, x):
-    """kL (little-endian integer of the first 32 key bytes) of the private key the input carries, or None."""
-    try:
-        if fn.endswith("FromPrivateKey.ChildKey"):
-            return int.from_bytes(x[:32], "little") if len(x) == 64 else None
-        raw = Base58Decoder.CheckDecode(x)
-        return int.from_bytes(raw[46:78], "little") if len(raw) == 110 else None
-    except Exception:  # noqa
-        return None
-
-
-def kholaw_child_overflow(fn, args, record):
-    """C14-KHOLAW-OVERFLOW: a private Khovratovich-Law key with kL >= 2^256 - 2^227 is accepted by the constructor; the
-    next private derivation renders 8*zL + kL in 32 bytes -> OverflowError."""
-    f = fn[6:] if fn.startswith("model:") else fn
-    if f not in KH_CHAIN_FNS or not _observed_escape(record) or "OverflowError" not in str(record):
-        return False
-    kl = _kh_left_part(f, args[0])
-    return kl is not None and kl >= 2 ** 256 - 2 ** 227
-
-
-def kholaw_child_overflow_replay():
-    try:
-        Bip32KholawEd25519.FromPrivateKey(b"\xff" * 64).ChildKey(0)
-    except OverflowError as ex:
-        return "Bip32KholawEd25519.FromPrivateKey(ff*64).ChildKey(0) raises OverflowError (%s)" % ex
-    except Exception:  # noqa
-        return None
-    return None
+# The predicates of the findings C14-BYRON-ATTRS, C14-BYRON-CBOR2-EXC and C14-KHOLAW-OVERFLOW are gone with the defects
+# (fix commits 5fa4775, 1b22b9b, 71d2424 of /repo); the streams that found them stay (byron_payload_mutations, the two
+# 'constructor + one derivation step' census entries).
